@@ -153,7 +153,15 @@ class Ctx:
         if z3.is_true(cond):
             return
         self.pc.append(cond)
+        if z3.is_not(cond):
+            self.pc_ids[cond.arg(0).get_id()] = False
+        else:
+            self.pc_ids[cond.get_id()] = True
         self._feas.add(abstract_nonlinear(cond))
+
+    def known(self, cond):
+        """True / False if the condition was decided syntactically on this path, else None"""
+        return self.pc_ids.get(z3.simplify(cond).get_id())
 
     def feasible(self, cond):
         r = self._feas.check(abstract_nonlinear(cond))
@@ -239,10 +247,13 @@ def ctx():
 
 # ---- discharge ----------------------------------------------------------------------------
 
+_TIMEOUT_OVERRIDE = [None]
+
+
 def _mk_solver(rlimit):
     s = z3.Solver()
     s.set('rlimit', rlimit)
-    s.set('timeout', SOLVER_TIMEOUT_MS)       # safety net only; the rlimit is what decides
+    s.set('timeout', _TIMEOUT_OVERRIDE[0] or SOLVER_TIMEOUT_MS)       # safety net only; the rlimit is what decides
     return s
 
 
@@ -362,7 +373,8 @@ def discharge(ob, lemmas, ground=None, want_model=True, interp=None, hints=None,
     ob.backend = 'z3'
     notes = []
     ginst = []
-    P_SMALL, R_SMALL, UF_B, P_BIG, R_BIG = budgets or DEFAULT_BUDGETS
+    P_SMALL, R_SMALL, UF_B, P_BIG, R_BIG = (budgets or DEFAULT_BUDGETS)[:5]
+    _TIMEOUT_OVERRIDE[0] = budgets[5] if budgets and len(budgets) > 5 else None
     if ground is not None and lemmas:
         ginst = ground(list(ob.hyps) + [ob.goal])
     model = None
